@@ -20,6 +20,7 @@ import random
 import re
 import shutil
 import tempfile
+import time
 import textwrap
 
 import numpy as np
@@ -75,9 +76,11 @@ def regex_premises(report):
         sol = z3.Solver()
         sol.set('timeout', 60000)
         sol.add(z3.InRe(s, lang))
+        _t0 = time.time()
         r = sol.check()
+        _dt = time.time() - _t0
         v = str(r) if str(r) in ('sat', 'unsat') else 'unknown'
-        solver.STATS.add('z3py-strings', v, 0.0)
+        solver.STATS.add('z3py-strings', v, _dt)
         wit = None
         if v == 'sat':
             wit = sol.model()[s].as_string()
@@ -288,9 +291,11 @@ def dispatch_disjointness(report):
                 sol = z3.Solver()
                 sol.set('timeout', 60000)
                 sol.add(z3.InRe(s, z3.Intersect(treg, reach)))
+                _t0 = time.time()
                 r = sol.check()
+                _dt = time.time() - _t0
                 v = str(r) if str(r) in ('sat', 'unsat') else 'unknown'
-                solver.STATS.add('z3py-strings', v, 0.0)
+                solver.STATS.add('z3py-strings', v, _dt)
                 report.record(name, v, backend='z3py-strings', sha=str(abs(hash(name)) % 10 ** 9), group='iterations.txt dispatch disjointness (regular-language queries)')
                 if v == 'unknown':
                     report.inconc(name, 'string query not settled')
@@ -436,9 +441,11 @@ def round_trips(report, tier):
     sol = z3.Solver()
     sol.set('timeout', 30000)
     sol.add(z3.InRe(s, z3.Intersect(name_re, z3.Concat(z3.Full(z3.ReSort(S)), z3.Re(','), z3.Full(z3.ReSort(S))))))
+    _t0 = time.time()
     r = sol.check()
+    _dt = time.time() - _t0
     v = str(r) if str(r) in ('sat', 'unsat') else 'unknown'
-    solver.STATS.add('z3py-strings', v, 0.0)
+    solver.STATS.add('z3py-strings', v, _dt)
     report.record("variable names admitted by the file-name regex cannot contain the ',' used to join content.txt keys", v,
                   backend='z3py-strings', sha='contentkey', group='content.txt key encoding (regular-language query)')
     if v != 'unsat':
